@@ -209,6 +209,17 @@ class TermEval:
         if isinstance(t, ast.UnaryOp) and isinstance(t.op, ast.Not):
             c = self.cond(t.operand, env, assume)
             return None if c is None else not c
+        # type tests on a symbol whose abstract value is known: a matrix symbol is never a python number
+        if (isinstance(t, ast.Call) and isinstance(t.func, ast.Name) and t.func.id == "isinstance" and len(t.args) == 2
+                and isinstance(t.args[0], ast.Name) and t.args[0].id in env):
+            v = env[t.args[0].id]
+            tys = t.args[1].elts if isinstance(t.args[1], ast.Tuple) else [t.args[1]]
+            names = [(dotted(x) or "").split(".")[-1] for x in tys]
+            if names and all(n in ("Number", "int", "float", "Real") for n in names):
+                if isinstance(v, Mat):
+                    return False
+                if isinstance(v, Scalar):
+                    return True
         return None
 
     def ev(self, e: ast.expr, env, assume, fn):
